@@ -136,6 +136,7 @@ theorem SRel.allocTableRight (t : Table N) : SRel Q β σ (σ'.allocTable t).2 :
 theorem SRel.allocClosureLeft (c : Closure N) : SRel Q β (σ.allocClosure c).2 σ' :=
   { h with
     front := by front_tac h
+    pin := fun p hp => ⟨getElem?_append_of_some (h.pin p hp).1 _, (h.pin p hp).2⟩
     clo := fun hxy =>
       let ⟨w, w', h1, h2, hw⟩ := h.clo hxy
       ⟨w, w', getElem?_append_of_some h1 _, h2, hw⟩ }
@@ -160,13 +161,13 @@ theorem front_refl (β : Inj) :
 /-- the new pair must lie at or beyond the frontier -/
 theorem le_extC {a b : Nat} (ha : β.cL ≤ a) (hb : β.cR ≤ b) : β.le (extC β a b) :=
   ⟨fun _ _ h => .inl h, fun _ _ h => h, fun _ _ h => h, front_refl β,
-    fun _ _ h => h.elim .inl fun e => .inr ⟨e.1 ▸ ha, e.2 ▸ hb⟩, fun _ _ h => .inl h, fun _ _ h => .inl h⟩
+    fun _ _ h => h.elim .inl fun e => .inr ⟨e.1 ▸ ha, e.2 ▸ hb⟩, fun _ _ h => .inl h, fun _ _ h => .inl h, fun _ h => h⟩
 theorem le_extT {a b : Nat} (ha : β.tL ≤ a) (hb : β.tR ≤ b) : β.le (extT β a b) :=
   ⟨fun _ _ h => h, fun _ _ h => .inl h, fun _ _ h => h, front_refl β,
-    fun _ _ h => .inl h, fun _ _ h => h.elim .inl fun e => .inr ⟨e.1 ▸ ha, e.2 ▸ hb⟩, fun _ _ h => .inl h⟩
+    fun _ _ h => .inl h, fun _ _ h => h.elim .inl fun e => .inr ⟨e.1 ▸ ha, e.2 ▸ hb⟩, fun _ _ h => .inl h, fun _ h => h⟩
 theorem le_extF {a b : Nat} (ha : β.fL ≤ a) (hb : β.fR ≤ b) : β.le (extF β a b) :=
   ⟨fun _ _ h => h, fun _ _ h => h, fun _ _ h => .inl h, front_refl β,
-    fun _ _ h => .inl h, fun _ _ h => .inl h, fun _ _ h => h.elim .inl fun e => .inr ⟨e.1 ▸ ha, e.2 ▸ hb⟩⟩
+    fun _ _ h => .inl h, fun _ _ h => .inl h, fun _ _ h => h.elim .inl fun e => .inr ⟨e.1 ▸ ha, e.2 ▸ hb⟩, fun _ h => h⟩
 
 theorem SRel.le_extC {σ σ' : State N} (h : SRel Q β σ σ') : β.le (extC β σ.cells.length σ'.cells.length) :=
   HeapV.le_extC h.front.cL h.front.cR
@@ -208,6 +209,7 @@ theorem SRel.allocCell (h : SRel Q β σ σ') {v v' : Val N} (hv : VRel β v v')
     exact ⟨w, w', h1, h2, hw.mono h.le_extC⟩
   strlib := h.strlib
   front := by front_tac h
+  pin := h.pin
 
 theorem SRel.allocTable (h : SRel Q β σ σ') {t t' : Table N} (ht : TRel β t t') :
     SRel Q (extT β σ.tables.length σ'.tables.length) (σ.allocTable t).2 (σ'.allocTable t').2 where
@@ -231,6 +233,7 @@ theorem SRel.allocTable (h : SRel Q β σ σ') {t t' : Table N} (ht : TRel β t 
     exact ⟨w, w', h1, h2, hw.mono h.le_extT⟩
   strlib := .inl h.strlib
   front := by front_tac h
+  pin := h.pin
 
 theorem SRel.allocClosure (h : SRel Q β σ σ') {c c' : Closure N} (hc : CRel Q β c c') :
     SRel Q (extF β σ.closures.length σ'.closures.length) (σ.allocClosure c).2 (σ'.allocClosure c').2 where
@@ -254,6 +257,8 @@ theorem SRel.allocClosure (h : SRel Q β σ σ') {c c' : Closure N} (hc : CRel Q
     · exact ⟨c, c', by simp, by simp, hc.mono h.le_extF⟩
   strlib := h.strlib
   front := by front_tac h
+  pin := fun p hp => ⟨getElem?_append_of_some (h.pin p hp).1 _, fun b hb =>
+    hb.elim ((h.pin p hp).2 b) fun e => by have := getElem?_lt (h.pin p hp).1; omega⟩
 
 /-- `bindLocals` on both sides with related values -/
 theorem SRel.bindLocals (h : SRel Q β σ σ') {D : List DName} (ns : List String) {vs vs' : List (Val N)}
@@ -299,7 +304,7 @@ def Inj.bump (β : Inj) (σ σ' : State N) : Inj :=
 theorem SRel.le_bump (h : SRel Q β σ σ') : β.le (β.bump σ σ') :=
   ⟨fun _ _ h => h, fun _ _ h => h, fun _ _ h => h,
     ⟨h.front.cL, h.front.cR, h.front.tL, h.front.tR, h.front.fL, h.front.fR⟩,
-    fun _ _ h => .inl h, fun _ _ h => .inl h, fun _ _ h => .inl h⟩
+    fun _ _ h => .inl h, fun _ _ h => .inl h, fun _ _ h => .inl h, fun _ h => h⟩
 
 theorem SRel.bump (h : SRel Q β σ σ') : SRel Q (β.bump σ σ') σ σ' where
   globals := lift_globals h.le_bump h.globals
@@ -312,6 +317,7 @@ theorem SRel.bump (h : SRel Q β σ σ') : SRel Q (β.bump σ σ') σ σ' where
   clo := fun hab => let ⟨v, v', h1, h2, hv⟩ := h.clo hab; ⟨v, v', h1, h2, hv.mono h.le_bump⟩
   strlib := h.strlib
   front := ⟨Nat.le_refl _, Nat.le_refl _, Nat.le_refl _, Nat.le_refl _, Nat.le_refl _, Nat.le_refl _⟩
+  pin := h.pin
 
 /-- ids that do not exist (yet) are related to nothing -/
 theorem SRel.unrelatedFL (h : SRel Q β σ σ') {a : Nat} (ha : σ.closures.length ≤ a) : ∀ b, ¬ β.f a b := fun b hab => by
@@ -336,19 +342,54 @@ theorem injective_ext' {r : Nat → Nat → Prop} (hr : Injective r) {a b : Nat}
   · exact ⟨fun e => absurd (e ▸ h2) (ha _), fun e => absurd (e ▸ h2) (hb _)⟩
   · exact ⟨fun _ => rfl, fun _ => rfl⟩
 
+/-- pin a closure the left allocates now (the right will allocate its partner later) -/
+def Inj.pinNew (β : Inj) (a : Nat) (body : FnBody) (env : List (String × Nat)) : Inj :=
+  { β with pinF := (a, body, env) :: β.pinF }
+
+theorem le_pinNew (a : Nat) (body : FnBody) (env : List (String × Nat)) : β.le (β.pinNew a body env) :=
+  ⟨fun _ _ h => h, fun _ _ h => h, fun _ _ h => h, front_refl β, fun _ _ h => .inl h, fun _ _ h => .inl h,
+    fun _ _ h => .inl h, fun _ h => List.mem_cons_of_mem _ h⟩
+
+/-- **the left allocates a closure EARLY**: it is pinned (content known, related to nothing) until the right
+allocates its partner (`SRel.matchClosureRight`) -/
+theorem SRel.allocClosureLeftPinned (h : SRel Q β σ σ') (body : FnBody) (env : List (String × Nat)) :
+    SRel Q (β.pinNew σ.closures.length body env) (σ.allocClosure ⟨body, env, []⟩).2 σ' := by
+  have hle := le_pinNew (β := β) σ.closures.length body env
+  have h1 := h.allocClosureLeft ⟨body, env, []⟩
+  exact {
+    globals := lift_globals hle h1.globals
+    trace := h1.trace
+    injC := h.injC
+    injT := h.injT
+    injF := h.injF
+    cell := fun hab => let ⟨v, v', e1, e2, hv⟩ := h1.cell hab; ⟨v, v', e1, e2, hv.mono hle⟩
+    tbl := fun hab => let ⟨v, v', e1, e2, hv⟩ := h1.tbl hab; ⟨v, v', e1, e2, hv.mono hle⟩
+    clo := fun hab => let ⟨v, v', e1, e2, hv⟩ := h1.clo hab; ⟨v, v', e1, e2, hv.mono hle⟩
+    strlib := h.strlib
+    front := ⟨h1.front.cL, h1.front.cR, h1.front.tL, h1.front.tR, h1.front.fL, h1.front.fR⟩
+    pin := fun p hp => by
+      rcases List.mem_cons.mp hp with rfl | hp
+      · exact ⟨by simp [State.allocClosure], h.unrelatedFL (Nat.le_refl _)⟩
+      · exact h1.pin p hp }
+
+/-- relate the pinned left closure `a` with the closure the right allocates now; the pin is released -/
+def Inj.matchF (β : Inj) (a b : Nat) : Inj :=
+  { β with f := fun x y => β.f x y ∨ (x = a ∧ y = b), pinF := β.pinF.filter (fun p => p.1 != a) }
+
 /-- **A closure allocated EARLIER on the left is matched by one allocated now on the right.**
-`a` is a left closure that is still unrelated; the right allocates `c'`. The new pair `(a, |σ'.closures|)`
-is in general below the left frontier of `β`, so the result is NOT an extension of `β` — it is an extension
-of any `β0` whose frontier `a` respects (`le_late` below): the relation at the entry of the step. -/
-theorem SRel.matchClosureRight (h : SRel Q β σ σ') {a : Nat} {c c' : Closure N} (ha : σ.closures[a]? = some c)
-    (hu : ∀ b, ¬ β.f a b) (hc : CRel Q β c c') :
-    SRel Q (extF β a σ'.closures.length) σ (σ'.allocClosure c').2 := by
-  have hle : ∀ {v v' : Val N}, VRel β v v' → VRel (extF β a σ'.closures.length) v v' := by
+The new pair `(a, |σ'.closures|)` is in general below the left frontier of `β`, so the result is NOT an
+extension of `β` — it is an extension of the relation `β0` at the entry of the step (`le_late`). -/
+theorem SRel.matchClosureRight (h : SRel Q β σ σ') {a : Nat} {body : FnBody} {env : List (String × Nat)}
+    (hp : (a, body, env) ∈ β.pinF) {c' : Closure N} (hc : CRel Q β ⟨body, env, []⟩ c') :
+    SRel Q (β.matchF a σ'.closures.length) σ (σ'.allocClosure c').2 := by
+  have ha := (h.pin _ hp).1
+  have hu := (h.pin _ hp).2
+  have hle : ∀ {v v' : Val N}, VRel β v v' → VRel (β.matchF a σ'.closures.length) v v' := by
     intro v v' hv
     cases v <;> cases v' <;> simp only [VRel] at hv ⊢ <;> first | exact hv | exact .inl hv
-  have hleT : ∀ {t t' : Table N}, TRel β t t' → TRel (extF β a σ'.closures.length) t t' := fun ht =>
+  have hleT : ∀ {t t' : Table N}, TRel β t t' → TRel (β.matchF a σ'.closures.length) t t' := fun ht =>
     ⟨Forall2.imp (fun _ _ he => ⟨hle he.1, hle he.2⟩) ht.entries, ht.mt⟩
-  have hleC : ∀ {d d' : Closure N}, CRel Q β d d' → CRel Q (extF β a σ'.closures.length) d d' := fun hd =>
+  have hleC : ∀ {d d' : Closure N}, CRel Q β d d' → CRel Q (β.matchF a σ'.closures.length) d d' := fun hd =>
     ⟨Forall2.imp (fun _ _ => hle) hd.varargs, hd.body⟩
   exact {
     globals := Forall2.imp (fun _ _ hp => ⟨hp.1, hle hp.2⟩) h.globals
@@ -363,16 +404,23 @@ theorem SRel.matchClosureRight (h : SRel Q β σ σ') {a : Nat} {c c' : Closure 
       rcases hab with hab | ⟨rfl, rfl⟩
       · obtain ⟨w, w', h1, h2, hw⟩ := h.clo hab
         exact ⟨w, w', h1, getElem?_append_of_some h2 _, hleC hw⟩
-      · exact ⟨c, c', ha, by simp, hleC hc⟩
+      · exact ⟨_, c', ha, by simp, hleC hc⟩
     strlib := h.strlib
-    front := by front_tac h }
+    front := by front_tac h
+    pin := fun p hp => by
+      have hp' := List.mem_filter.mp hp
+      refine ⟨(h.pin p hp'.1).1, fun b hb => ?_⟩
+      rcases hb with hb | ⟨e, _⟩
+      · exact (h.pin p hp'.1).2 b hb
+      · have := hp'.2; simp only [bne_iff_ne, ne_eq] at this; exact this e }
 
-/-- the late pair is fresh for every relation whose frontier it respects -/
-theorem le_late {β0 β1 : Inj} (h : β0.le β1) {a b : Nat} (ha : β0.fL ≤ a) (hb : β0.fR ≤ b) :
-    β0.le (extF β1 a b) :=
+/-- the late pair is fresh for every relation `β0` whose frontier it respects and that does not pin `a` -/
+theorem le_late {β0 β1 : Inj} (h : β0.le β1) {a b : Nat} (ha : β0.fL ≤ a) (hb : β0.fR ≤ b)
+    (hp : ∀ p ∈ β0.pinF, p.1 ≠ a) : β0.le (β1.matchF a b) :=
   ⟨h.c, h.t, fun _ _ hf => .inl (h.f _ _ hf), h.front, h.freshC, h.freshT, fun x y hf => by
     rcases hf with hf | ⟨rfl, rfl⟩
     · exact h.freshF x y hf
-    · exact .inr ⟨ha, hb⟩⟩
+    · exact .inr ⟨ha, hb⟩,
+    fun p hp0 => List.mem_filter.mpr ⟨h.pins p hp0, by simp only [bne_iff_ne, ne_eq]; exact hp p hp0⟩⟩
 
 end DarkluaModel.Sem.HeapV
